@@ -107,6 +107,22 @@ class Inputs:
         self.Mlong = r.randn(300, 6)
         self.Mwide = r.randn(6, 300)
         self.slong = [np.abs(r.randn(n, 4)) for n in (280, 260, 270)]
+        # tensor algebra on caller-held containers
+        self.w2 = r.rand(2) + 0.5
+        self.krmask = (r.rand(60, 1) > 0.2).astype(float)
+        self.kmats = [r.randn(2, 3), r.randn(3, 2)]
+        self.mmats = [r.randn(2, 4), r.randn(3, 3), r.randn(2, 5)]
+        self.mvecs = [r.randn(4), r.randn(3), r.randn(5)]
+        self.core = r.randn(2, 2, 2)
+        self.ttf = [r.randn(1, 3, 2), r.randn(2, 4, 2), r.randn(2, 2, 1)]
+        self.trf = [r.randn(2, 3, 2), r.randn(2, 4, 2), r.randn(2, 2, 2)]
+        self.ttm = [r.randn(1, 2, 3, 2), r.randn(2, 2, 3, 1)]
+        self.B1, self.B2 = r.randn(3, 4, 2), r.randn(3, 2, 5)
+        self.samples = r.randn(6, 3)
+        self.B3 = r.randn(4, 2, 5)
+        self.bo = [r.randn(3, 2), r.randn(3, 4)]
+        # plain Python containers the caller holds (never copied: a routine that appends to / removes from them shows)
+        self.modes02, self.rank222, self.ttrank, self.trrank, self.fixed0 = [0, 2], [2, 2, 2], [1, 2, 2, 1], [2, 2, 2, 2], [0]
 
 
 _INPUTS = None
@@ -413,6 +429,67 @@ def _entries():
     add("random_cp", "size-1 mode,rank>dim", lambda rs: tr.random_cp((3, 1, 2), 3, random_state=rs), det_cpt, slow=True)
     add("random_tucker", "order=2", lambda rs: tr.random_tucker((3, 4), [2, 2], random_state=rs), det_modedot, slow=True)
     add("random_tt", "order=4", lambda rs: tr.random_tt((3, 2, 3, 2), [1, 2, 2, 2, 1], random_state=rs), det_tt, slow=True)
+    # ---- routines WITHOUT random choices under test themselves: tensor algebra and the functions on factorised tensors,
+    # in their option forms, on containers (lists / tuples of arrays) the caller keeps and hands over again.  They have
+    # no random_state: only the unseeded call exists (the seed-accepting companion of these registry lines is a trivial draw).
+    import tensorly.tenalg as ta
+    draw = lambda rs: tl.check_random_state(rs).random_sample(2)
+
+    def addd(fn, opt, det):
+        add(fn, opt, draw, det, slow=True)
+        E[-1]["detonly"] = True
+    cpt = lambda: (c(I.w2), c(I.mats))
+    addd("khatri_rao", "", lambda: ta.khatri_rao(c(I.mats)))
+    addd("khatri_rao", "weights", lambda: ta.khatri_rao(c(I.mats), weights=c(I.w2)))
+    addd("khatri_rao", "weights,skip_matrix", lambda: ta.khatri_rao(c(I.mats), weights=c(I.w2), skip_matrix=1))
+    # mask: tensor-shaped (4,3,5) is accepted by both implementations; a column (60,1) only by "core" -- under "einsum"
+    # it raises ValueError (einsum subscripts), which as an outcome must simply reproduce
+    addd("khatri_rao", "mask(tensor-shaped)", lambda: ta.khatri_rao(c(I.mats), mask=c(I.mask)))
+    addd("khatri_rao", "weights,mask(tensor-shaped)", lambda: ta.khatri_rao(c(I.mats), weights=c(I.w2), mask=c(I.mask)))
+    addd("khatri_rao", "weights,mask(column)", lambda: ta.khatri_rao(c(I.mats), weights=c(I.w2), mask=c(I.krmask)))
+    addd("khatri_rao", "skip_matrix", lambda: ta.khatri_rao(c(I.mats), skip_matrix=0))
+    addd("kronecker", "", lambda: ta.kronecker(c(I.kmats)))
+    addd("kronecker", "skip_matrix,reverse", lambda: ta.kronecker(c(I.mats), skip_matrix=1, reverse=True))
+    addd("mode_dot", "matrix", lambda: ta.mode_dot(c(I.T), c(I.mmats)[1], 1))
+    addd("mode_dot", "vector", lambda: ta.mode_dot(c(I.T), c(I.mvecs)[1], 1))
+    addd("mode_dot", "matrix,transpose", lambda: ta.mode_dot(c(I.T), c(I.mats)[2], 2, transpose=True))
+    addd("multi_mode_dot", "matrices", lambda: ta.multi_mode_dot(c(I.T), c(I.mmats)))
+    addd("multi_mode_dot", "vectors", lambda: ta.multi_mode_dot(c(I.T), c(I.mvecs)))
+    addd("multi_mode_dot", "modes,skip", lambda: ta.multi_mode_dot(c(I.T), c(I.mmats), modes=[0, 1, 2], skip=1))
+    addd("multi_mode_dot", "transpose", lambda: ta.multi_mode_dot(c(I.T), c(I.mats), transpose=True))
+    addd("inner", "", lambda: ta.inner(c(I.T), c(I.P)))
+    addd("inner", "n_modes=2", lambda: ta.inner(c(I.B1), c(I.B3), n_modes=2))
+    addd("outer", "", lambda: ta.outer(c(I.mvecs)))
+    addd("batched_outer", "", lambda: ta.batched_outer(c(I.bo)))
+    addd("tensordot", "batched", lambda: ta.tensordot(c(I.B1), c(I.B2), modes=[2, 1], batched_modes=[0, 0]))
+    addd("unfolding_dot_khatri_rao", "mode=1", lambda: ta.unfolding_dot_khatri_rao(c(I.T), cpt(), 1))
+    addd("unfolding_dot_khatri_rao", "weights=None", lambda: ta.unfolding_dot_khatri_rao(c(I.T), (None, c(I.mats)), 0))
+    addd("higher_order_moment", "order=3", lambda: ta.higher_order_moment(c(I.samples), 3))
+    addd("cp_to_tensor", "", lambda: tl.cp_to_tensor(cpt()))
+    addd("cp_to_tensor", "mask", lambda: tl.cp_to_tensor(cpt(), mask=c(I.mask)))
+    addd("cp_to_unfolded", "mode=2", lambda: tl.cp_to_unfolded(cpt(), 2))
+    addd("cp_to_vec", "", lambda: tl.cp_to_vec(cpt()))
+    addd("cp_norm", "", lambda: tl.cp_tensor.cp_norm(cpt()))
+    addd("cp_normalize", "", lambda: tl.cp_tensor.cp_normalize(cpt()))
+    addd("cp_flip_sign", "", lambda: tl.cp_tensor.cp_flip_sign(cpt()))
+    addd("cp_mode_dot", "copy=True", lambda: tl.cp_tensor.cp_mode_dot(cpt(), c(I.mmats)[1], 1, copy=True))      # copy=False (the default) works in place
+    addd("cp_permute_factors", "", lambda: tl.cp_tensor.cp_permute_factors(tl.cp_tensor.CPTensor(cpt()), [tl.cp_tensor.CPTensor((c(I.w2), [m[:, ::-1] for m in c(I.mats)]))]))
+    addd("tucker_to_tensor", "", lambda: tl.tucker_to_tensor((c(I.core), c(I.mats))))
+    addd("tucker_to_tensor", "skip_factor,transpose", lambda: tl.tucker_to_tensor((c(I.T), c(I.mats)), skip_factor=1, transpose_factors=True))
+    addd("tucker_to_unfolded", "", lambda: tl.tucker_to_unfolded((c(I.core), c(I.mats)), 1))
+    addd("tucker_mode_dot", "copy=True", lambda: tl.tucker_tensor.tucker_mode_dot((c(I.core), c(I.mats)), c(I.mmats)[1], 1, copy=True))
+    addd("tt_to_tensor", "", lambda: tl.tt_to_tensor(c(I.ttf)))
+    addd("tt_to_unfolded", "", lambda: tl.tt_tensor.tt_to_unfolded(c(I.ttf), 1))
+    addd("tr_to_tensor", "", lambda: tl.tr_tensor.tr_to_tensor(c(I.trf)))
+    addd("tt_matrix_to_tensor", "", lambda: tl.tt_matrix.tt_matrix_to_tensor(c(I.ttm)))
+    addd("parafac2_to_tensor", "", lambda: tl.parafac2_tensor.parafac2_to_tensor(tr.random_parafac2([(3, 4), (4, 4), (3, 4)], 2, random_state=1)))
+    addd("unfold+fold", "", lambda: tl.fold(tl.unfold(c(I.T), 1), 1, (4, 3, 5)))
+    addd("partial_tucker", "init=svd (HOSVD), caller's modes list", lambda: D.partial_tucker(c(I.T), [2, 2], modes=I.modes02, n_iter_max=2, init="svd", tol=0))
+    addd("tucker", "init=svd, rank list", lambda: D.tucker(c(I.T), I.rank222, n_iter_max=2, init="svd", tol=0))
+    addd("tensor_train", "rank list", lambda: D.tensor_train(c(I.T), I.ttrank))
+    addd("tensor_ring", "rank list", lambda: D.tensor_ring(c(I.T), I.trrank))
+    addd("parafac", "init=svd,fixed_modes list", lambda: D.parafac(c(I.T), 2, n_iter_max=2, init="svd", tol=0, fixed_modes=I.fixed0))
+    addd("robust_pca", "", lambda: D.robust_pca(c(I.T), n_iter_max=3, tol=0))
     for k, e in enumerate(E):
         e["key"] = e["fn"] + ("[" + e["opt"] + "]" if e["opt"] else "")
     return E
@@ -465,6 +542,20 @@ def run_trace(case):
     Returns the list of events (Reset first)."""
     ent = registry()[case["entry"]]
     new_trace_arguments()
+    import tensorly.tenalg as _ta
+    _ta.set_backend(case.get("tenalg", "core"))
+    try:
+        return _run_trace(case, ent, _ta)
+    finally:
+        _ta.set_backend("core")
+        for k, v in PRISTINE_CONTAINERS.items():        # the Python containers of the fixed inputs are restored per trace
+            getattr(inputs(), k)[:] = v
+
+
+PRISTINE_CONTAINERS = {"modes02": [0, 2], "rank222": [2, 2, 2], "ttrank": [1, 2, 2, 1], "trrank": [2, 2, 2, 2], "fixed0": [0]}
+
+
+def _run_trace(case, ent, _ta):
     sform = SEEDFORMS[case.get("seedform", "int")]
     real = {int(k): sform(int(v)) for k, v in case["seeds"].items()}
     tab = {}
@@ -510,14 +601,16 @@ def run_trace(case):
 
     events = []
     ev = {"id": "%s/0" % case["id"], "tr": case["tr"], "ev": "Reset", "entry": case["entry"], "e": "none", "s": 0, "g": "none", "o": "none",
-          "out": "ok", "res": 0, "genseed": {g: int(ms) for g, ms in case["genseed"].items()}, "objseed": objseed}
+          "b": case.get("tenalg", "core"), "out": "ok", "res": 0, "genseed": {g: int(ms) for g, ms in case["genseed"].items()}, "objseed": objseed}
     ev.update(obs())
     events.append(ev)
     for l, op in enumerate(case["ops"], 1):
         ev = {"id": "%s/%d" % (case["id"], l), "tr": case["tr"], "ev": op["op"], "entry": case["entry"],
-              "e": op.get("e", "none"), "s": int(op.get("s", 0)), "g": op.get("g", "none"), "o": op.get("o", "none"), "out": "ok", "res": 0}
+              "e": op.get("e", "none"), "s": int(op.get("s", 0)), "g": op.get("g", "none"), "o": op.get("o", "none"), "b": op.get("b", "none"), "out": "ok", "res": 0}
         if op["op"] == "Perturb":
             perturb()
+        elif op["op"] == "SwitchBackend":
+            _ta.set_backend(op["b"])
         elif op["op"] == "Reseed":
             np.random.seed(int(real[int(op["s"])]) % 2**32)
         else:
